@@ -15,13 +15,14 @@ Theorem C08_mpeg1video_output_bounded : forall hist f,
 Proof. exact output_bounded. Qed.
 Print Assumptions C08_mpeg1video_output_bounded.
 
-(* FINDING F5: retained bytes have no bound: for EVERY B a history of packets of at most 5 payload
-   bytes (a start fragment, then middle fragments with consecutive sequence numbers) after which
-   more than B bytes are retained in d.fragments *)
-Theorem C08_mpeg1video_bounded_refuted : forall B, exists hist,
-  Forall (fun p => nlen (ppayload p) <= 5) hist /\ B < fst (retained (fst (dec_run dinit hist))).
-Proof. exact bytes_bounded_refuted. Qed.
-Print Assumptions C08_mpeg1video_bounded_refuted.
+(* BYTES are bounded, FULL (finding F5 repaired by /repo b3e0ab0: fragmentsSize is checked against
+   maxFrameSize): for every history of packets with at most P payload bytes the decoder retains at most
+   maxFrameSize (slice buffer) + max(maxFrameSize, P) (fragment table) bytes.  The refutation of the
+   old code is kept in coq/mpeg1video/history/ (not built). *)
+Theorem C08_mpeg1video_bounded : forall P hist, Forall (fun p => nlen (ppayload p) <= P) hist ->
+  fst (retained (fst (dec_run dinit hist))) <= cap + N.max cap P.
+Proof. exact bounded. Qed.
+Print Assumptions C08_mpeg1video_bounded.
 
 (* FINDING F6: slice headers have no bound even when (almost) no bytes are retained:
    (a) empty middle fragments after a 1-byte start fragment, (b) empty B=E=1 slices without marker *)
@@ -37,12 +38,12 @@ Theorem C08_mpeg1video_slices_bounded_refuted_empty_slices : forall B, exists hi
 Proof. exact slices_bounded_refuted_empty_slices. Qed.
 Print Assumptions C08_mpeg1video_slices_bounded_refuted_empty_slices.
 
-(* what holds of retained memory: the slice buffer never holds more than maxFrameSize bytes.
-   MISSING: any bound on d.fragments (bytes: F5) and on the entry count of both tables (F6). *)
-Theorem C08_mpeg1video_bounded_partial : forall hist,
+(* what holds of the entry counts: nothing beyond the byte bounds (the slice buffer alone never holds more
+   than maxFrameSize bytes).  MISSING: a bound on the entry count of both tables (F6). *)
+Theorem C08_mpeg1video_slices_partial : forall hist,
   nlen (concat (dslices (fst (dec_run dinit hist)))) <= cap.
 Proof. exact slicebuffer_bounded. Qed.
-Print Assumptions C08_mpeg1video_bounded_partial.
+Print Assumptions C08_mpeg1video_slices_partial.
 
 Example C08_mpeg1video_example :
   snd (dec_run dinit [mkPkt 1 0 true [0;0;16;0;1;2]; mkPkt 2 0 true [0;0;8;0;3;4]; mkPkt 9 0 true [0;0;24;0;0;0;1]])
